@@ -29,6 +29,7 @@ RULE += (' Also: a source failing at its k-th use (AttributeError, TypeError, Ke
 RULE += (' Also: scoped_iter blocks (closing tools on the handle, then the rest) over every flavour of source.')
 RULE += (' Also: a context decorator around every flavour of awaitable-returning callable, incl. one doing its work when called.')
 RULE += (" Also: managers' enter values that are awaitable payload (ExitStack scenario).")
+RULE += (' Also: the same exit callable / manager registered twice on an ExitStack (two registrations, two runs, whatever the flavour).')
 ASSUMPTIONS = ["baseline (list + def) behaviour itself is judged by C01/C02, not here"]
 EXHAUSTIVE = {"quick": False, "thorough": False}
 N_SPECS = {"quick": 6000, "thorough": 200000}
@@ -113,7 +114,10 @@ def cases(tier, seed, shard, nshards):
             kind = rng.choice(["push", "callback", "enter"])
             beh = rng.choice(["falsy", "truthy", "raise"] + (["enter_raises", "enter_raises_truthy"] if kind == "enter" else []))
             entries.append([kind, beh])
-        yield {"kind": "exitstack", "entries": entries, "body_raises": rng.random() < 0.6, "catch_enter": rng.random() < 0.5}
+        yield {"kind": "exitstack", "entries": entries, "body_raises": rng.random() < 0.6, "catch_enter": rng.random() < 0.5,
+               # the SAME exit handler / manager object registered twice (two resources released by one function,
+               # a reusable manager entered twice): two registrations, two runs - whatever the flavour
+               "dup": rng.random() < 0.35}
 
 
 def _vectors(nsrc, nfn, rng, maxvec):
@@ -258,8 +262,13 @@ def run_exitstack(case, stats):
                         if kind == "enter":
                             # a context manager handed to enter_context: plain ("def") or asynchronous flavour
                             try:
-                                value = await stack.enter_context(make_cm(i, beh, fl))
+                                cm = make_cm(i, beh, fl)
+                                value = await stack.enter_context(cm)
                                 CTX.ev("entered", i, value)
+                                if case.get("dup"):
+                                    value = await stack.enter_context(cm)
+                                    CTX.ev("entered", i, value)
+                                    stack.push(cm)
                             except EnterFailed:
                                 if not case.get("catch_enter"):
                                     raise
@@ -275,8 +284,12 @@ def run_exitstack(case, stats):
                         fn = make_fn(fs, fl)
                         if kind == "push":
                             r = stack.push(fn)
+                            if case.get("dup"):
+                                r = stack.push(fn)
                         else:
                             r = stack.callback(fn, "arg", kw=i)
+                            if case.get("dup"):
+                                r = stack.callback(fn, "arg", kw=i)
                         if r is not fn:
                             CTX.ev("push-returned-other")
                     if case["body_raises"]:
